@@ -496,11 +496,12 @@ class ClosedSurfacePhasorPoyntingFluxDetector(PhasorDetector):
         del inv_permeability, inv_permittivity
         time_passed = time_step * self._config.time_step_duration
         static_scale = self._static_scale()
+        window_weight = self._window_at_time_step_arr[time_step]
 
         EH = jnp.stack([E[0], E[1], E[2], H[0], H[1], H[2]], axis=0)  # (6, nx, ny, nz)
         phase_angles = self._angular_frequencies * time_passed  # (num_freqs,)
         phasors = jnp.exp(1j * phase_angles).reshape((len(self._angular_frequencies),) + (1,) * EH.ndim)
-        new_phasors = EH * phasors * static_scale  # (num_freqs, 6, nx, ny, nz)
+        new_phasors = EH * phasors * static_scale * window_weight  # (num_freqs, 6, nx, ny, nz)
 
         new_state = dict(state)
         for a in self._resolve_active_axes():
